@@ -210,8 +210,8 @@ Lemma handle_pred_sender : forall rf rep place ws ls s, 1 <= rf -> 0 <= rep ->
   exists o, handle rf rep place ws = Some o
     /\ (o = OAck -> rep <= rf ->
         quorum_everywhere (List.length place) (success_threshold rf rep) (resps_of place ws) = true
-        /\ exists k, (k <= List.length ws)%nat /\ forall d obs obsr, (k <= d)%nat ->
-             pred_ok (CAck rf rep place ws obs obsr 200 d) = true)
+        /\ exists k, (k <= List.length ws)%nat /\ forall d hg obs obsr, (k <= d)%nat ->
+             pred_ok (CAck rf rep place ws hg obs obsr 200 d) = true)
     /\ (o = OFail -> quorum_everywhere (List.length place) (success_threshold rf rep) (resps_of place ws) = false).
 Proof.
   intros rf rep place ws ls s Hrf Hrep Hr Hcl Hch. apply handle_pred; [exact Hrf|exact Hrep|].
